@@ -16,6 +16,7 @@ import (
 	"os"
 	"regexp"
 	"strings"
+	"sync"
 	"testing"
 	"time"
 
@@ -74,7 +75,9 @@ func (c Case) Source() string { return strings.Join(c.Stmts, "\n") + "\n" }
 // commands that only compute in memory (or read the file system). `pipe` and
 // `!pipe` only appear in templates that close every pipe they open: a named
 // pipe left open makes any later reader of it (or `get-type <name>`) block by
-// design.
+// design, and so does a `<name>` redirection later in the same block (it holds
+// the pipe open from compile time on): the argument pool never names a pipe
+// that a template creates.
 var allow = []string{
 	"!", "!and", "!or", "!if", "!match", "!regexp", "!escape", "!eschtml", "!escurl", "!set", "!global", "!catch",
 	"!function", "!alias", "!private", "!test", "!base64", "!gz", "!bz2", "!summary", "!f", "!g", "!rx",
@@ -93,13 +96,13 @@ var words = []string{"vfoo", "vbar", "vbaz", "vq1", "vq2"}
 var argPool = []string{
 	"--bad", "-x", "--", "-", "--help", "--str", "--num", "-b", "--flag=val", "-1", "0", "1", "2", "-4", "99999999999999999999", "1.5", "1e400", "NaN",
 	"''", "\"\"", "\"a b\"", "'a\"b'", "%(a (b) c)", "%[1,2,3]", "%[]", "%{a:1,b:[1,2]}", "%{}", "$undef", "@undef", "$vfoo", "@vfoo", "$vfoo.a.b", "$vfoo[0]", "$vfoo[[/a]]",
-	"*", "?", "~", "~nouser", "<err>", "<!out>", "<null>", "<nopipe>", "<vp1>", "foo=bar", "vfoo=1", "=", ":", ",", "json", "str", "int", "num", "bool", "yaml", "jsonl", "csv", "toml", "*", "generic", "badtype",
+	"*", "?", "~", "~nouser", "<err>", "<!out>", "<null>", "<nopipe>", "foo=bar", "vfoo=1", "=", ":", ",", "json", "str", "int", "num", "bool", "yaml", "jsonl", "csv", "toml", "*", "generic", "badtype",
 	"s/a/b/", "m/(/", "f/x/", "s/a/", "m/a/", "f,a,", "[1..3]", "[..]", "[-1..]", "[a..z]", "[3..1]", "[01..10]", "[1..3,a..b]", "[",
 	"{ out x }", "{ }", "{ err e }", "{ (1/0) }", "{ $undef }", "{ false }", "{ true }", "{ break vfoo }", "{ return 3 }", "{", "}",
 	"(1+", "1/0", "a.b.c", "/a/b", "/0", "/-1", "-1", "a", "b", "c", "then", "else", "case", "default", "on", "off", "enable", "disable",
 	"unit", "function", "run", "config", "define", "state", "report", "builtin", "get", "set", "--variables", "--fids", "--functions", "--aliases", "--named-pipes", "--globals", "--config", "--memstats", "--not-a-flag",
 	"--down", "--up", "1e-1", "0.1", "5", "*0", "*1", "*2", "*-1", ":0", ":a", "0:", "1:", "2:", ":1",
-	"é", "日本", "\\n", "\\x", "\\", "a\\ b", "#c", "vfoo", "vbar", "vp1", "vp2", "std", "file", "0x10", "--parallel", "--step", "--jmap", "--trypipe",
+	"é", "日本", "\\n", "\\x", "\\", "a\\ b", "#c", "vfoo", "vbar", "std", "file", "0x10", "--parallel", "--step", "--jmap", "--trypipe",
 }
 
 var stdinPool = []string{
@@ -119,7 +122,7 @@ var templates = []string{
 	"function vbar (a: int, b: str [x]) { out $a $b }\nvbar %s %s",
 	"function vbar (a: int \"d\", !b: bool) { out $a }\nvbar %s",
 	"pipe vp1\n!pipe vp1\n!pipe vp1", "pipe vp1\npipe vp1\n!pipe vp1", "!pipe vp2", "pipe vp1\nout x -> <vp1>\n!pipe vp1\n<vp1>",
-	
+
 	"vfoo = %s\n$vfoo.a.b = %s\nout $vfoo", "vfoo = %s\nout $vfoo[%s]", "vfoo = %s\nout @vfoo[%s]", "vfoo = %s\n$vfoo -> [%s]",
 	"set %s vfoo = %s", "global %s vfoo = %s", "(%s %s %s)", "(%s)", "out ${%s}", "out @{%s}", "out \"${ %s }\"",
 	"switch %s { case %s { out a } default { out b } }", "if { %s } then { out y } else { out n }", "if %s %s %s",
@@ -162,6 +165,11 @@ func gen(t *rapid.T) Case {
 	for i := 0; i < n; i++ {
 		if rapid.IntRange(0, 2).Draw(t, "form") == 0 {
 			tpl := rapid.SampledFrom(templates).Draw(t, "tpl")
+			if strings.Contains(tpl, "vp1") || strings.Contains(tpl, "vp2") {
+				// a closed pipe lingers for 2 s: give every case its own names
+				sfx := fmt.Sprintf("_%d", rapid.IntRange(0, 99999).Draw(t, "pipe"))
+				tpl = strings.ReplaceAll(strings.ReplaceAll(tpl, "vp1", "vp1"+sfx), "vp2", "vp2"+sfx)
+			}
 			k := strings.Count(tpl, "%s")
 			args := make([]any, k)
 			for j := range args {
@@ -254,12 +262,49 @@ wait:
 		return core.Violf("error-with-exit-0", "the command printed an error but its exit number is 0:\n%s\nstderr: %s", src, r.Stderr)
 	}
 	if usesDelayed.MatchString(src) {
-		// named pipes are closed by a goroutine 2 s after `!pipe`: keep the
-		// process alive long enough for that goroutine to run, so that a
-		// crash is attributed to this case.
-		time.Sleep(2300 * time.Millisecond)
+		// named pipes are closed by a goroutine 2 s after `!pipe`; a crash
+		// there kills the process. During a search the case is remembered and
+		// journalled together with the cases that follow it within that
+		// window (journalOf), and TestProp waits out the window at its end;
+		// a replay simply waits here.
+		if deferPipeWait {
+			pendMu.Lock()
+			pending = append(pending, pendingCase{c.Stmts, time.Now()})
+			pendMu.Unlock()
+		} else {
+			time.Sleep(2300 * time.Millisecond)
+		}
 	}
 	return nil
+}
+
+type pendingCase struct {
+	stmts []string
+	at    time.Time
+}
+
+var (
+	deferPipeWait bool
+	pendMu        sync.Mutex
+	pending       []pendingCase
+)
+
+// journalOf prefixes a case with the pipe-closing cases of the last 2.5 s:
+// should one of their delayed closers take the process down while this case
+// runs, the journalled case reproduces it (check() waits when replaying).
+func journalOf(c Case) any {
+	pendMu.Lock()
+	defer pendMu.Unlock()
+	keep := pending[:0]
+	var stmts []string
+	for _, p := range pending {
+		if time.Since(p.at) < 2500*time.Millisecond {
+			keep = append(keep, p)
+			stmts = append(stmts, p.stmts...)
+		}
+	}
+	pending = keep
+	return Case{Stmts: append(stmts, c.Stmts...)}
 }
 
 var siteRe = regexp.MustCompile(`function: (github\.com/lmorg/murex/[^\s(]+)\(`)
@@ -297,6 +342,9 @@ func panicViolation(src, report string, hung bool) *core.Violation {
 }
 
 func trimDump(d string) string {
+	if f := os.Getenv("VERIF_C19_FULLDUMP"); f != "" {
+		os.WriteFile(f, []byte(d), 0o644)
+	}
 	if len(d) > 5000 {
 		return d[:5000] + "\n…"
 	}
@@ -336,16 +384,18 @@ func known(c Case, v *core.Violation) string {
 	return ""
 }
 
-var spec = core.Spec[Case]{ID: "C19", Gen: gen, Check: check, Classify: classify, Known: known, Journal: true,
+var spec = core.Spec[Case]{ID: "C19", Gen: gen, Check: check, Classify: classify, Known: known, Journal: true, JournalOf: journalOf,
 	Sample: func(c Case) any { return c.Source() }}
 
 func TestProp(t *testing.T) {
 	_ = lang.GoFunctions
+	deferPipeWait = true
 	core.RunProp(t, spec)
 	// quiescence window: anything delayed must have happened before we say "survived"
 	time.Sleep(2500 * time.Millisecond)
 }
 func TestReplay(t *testing.T) {
 	core.Replay(t, spec)
-	time.Sleep(2500 * time.Millisecond)
+	// check() has already waited out the named-pipe grace period where one applies
+	time.Sleep(300 * time.Millisecond)
 }
